@@ -4,11 +4,48 @@ SPEC = Spec(
     pid="C20",
     lean_modules=["OtelVerif.Props.C20"],
     harnesses=[
+        # deterministic, gated histories: exact differential (D) against the LTS + Lean trace monitor (M) + Go oracles
         Harness(name="runloop", module="otelcol", pkg="otelcol",
                 files={"zz_verif_c20_runloop_test.go": "c20/runloop_test.go"},
-                test="TestVerifC20RunLoop", driver="drv_c20", n={"quick": 1500, "thorough": 20000}, timeout_s=1500),
+                test="TestVerifC20RunLoop", driver="drv_c20", n={"quick": 6000, "thorough": 80000}, timeout_s=1500),
+        # native scheduling, no gates: monitored only (M)
+        Harness(name="race", module="otelcol", pkg="otelcol",
+                files={"zz_verif_c20_runloop_test.go": "c20/runloop_test.go"},
+                test="TestVerifC20Race", driver="drv_c20", n={"quick": 1200, "thorough": 12000}, timeout_s=1500),
     ],
-    rule="det",
-    trusted_base=[],
-    assumptions=[],
+    rule="runloop: the real otelcol.Collector (real ConfigProvider/confmap.Resolver, real service.Service) with an instrumented "
+         "confmap provider and instrumented receiver/exporter/extension factories; the Run goroutine is parked at gates inside the "
+         "hooks (provider Retrieve, exporter Start, exporter Shutdown, provider Shutdown) while a random walk performs external "
+         "events (Shutdown() from 1-3 goroutines, SIGHUP/SIGTERM via signalsChannel, watch ok/error via the resolver's watcher func, "
+         "async error via asyncErrorChannel, ctx cancel) before Run, at every gate, in the select and after Run returned, and picks "
+         "failing outcomes (Retrieve / create / Start / component Shutdown / provider Shutdown) with probability 1/8 per step; "
+         "4-27 labels per history, then finished with ok outcomes; case 0 is the corpus witness (SIGHUP, Shutdown() while Closing). "
+         "Every label is an `op`, the observable state (GetState, shutdownChan closed?, generation, live generations, per-generation "
+         "service shutdown count, provider shutdown count, Run's result) after it is diffed exactly with the model; the select branch "
+         "taken is read from the service log and fed to the model, which checks it was enabled. non-trivial = at least one reload; "
+         "distinct = distinct op sequence. race: no gates, hooks sleep 0-0.3 ms, 1-4 reload triggers and 1-3 Shutdown() calls (1/3 of "
+         "the cases plus SIGTERM / async error / cancel) from goroutines with random 0-3 ms delays; the event log is checked by the "
+         "Lean monitor C20.check (proved sound: C20_check_sound) and by a Go oracle (rest in select with the request dropped); "
+         "non-trivial = at least one reload happened; distinct = distinct scenario descriptor.",
+    trusted_base=[
+        "Lean 4.33.0 kernel; axioms per theorem listed under axioms_per_theorem (subset of propext, Classical.choice, Quot.sound)",
+        "hand-written LTS of otelcol/collector.go (Run, setupConfigurationComponents, reloadConfiguration, shutdown, Shutdown) in "
+        "Model/C20.lean, one label per statement of the Run goroutine; tied by exact differential on every run at the granularity "
+        "of the harness gates, finer interleavings only monitored (race harness)",
+        "Go runtime: channel/select semantics (a ready branch is eventually taken; closed channel stays ready), atomic state word, "
+        "recover of the double close; modelled, not verified",
+        "service.Service.Start/Shutdown and confmap.Resolver are exercised for real but modelled as single fallible steps; that "
+        "service.Shutdown shuts every started component down is C10's statement, observed here by the component-level trace monitor",
+        "the harness's reading of which select branch was taken comes from the collector's own log messages (zap hook)",
+        "OS signal delivery (signal.Notify) is replaced by sends on Collector.signalsChannel; real config providers by an instrumented one",
+    ],
+    assumptions=[
+        "fairness for the liveness statements (C20_stop_returns, C20_shutdown_honoured): the Run goroutine and a goroutine inside "
+        "Shutdown() are eventually scheduled; the history of external events is finite",
+        "a config provider notifies at most once per Retrieve and never after its Shutdown (confmap.WatcherFunc contract); the model "
+        "itself allows any number of pending notifications",
+        "Run is called at most once per Collector (documented)",
+        "a failed reload returns from Run without passing through shutdown (state stays Starting/Closing, providers not shut down): "
+        "modelled as is; the statement's Closed clause lists other stop reasons, so this is recorded, not flagged",
+    ],
 )
